@@ -30,6 +30,62 @@ def fxm(M):
 # ------------------------------------------------------------------------------------------------ recording wrappers
 
 LOG = []          # per-process event log of the wrappers (cleared by the driver before each solve)
+PROTO = []        # per-process protocol trace of one solve: every wrapper method call, in order (spec/Solve.tla)
+PROTO_HEAD = [None]
+CURRENT_PEP = [None]
+_DEPTH = [0]
+
+
+def _ev(ev, **kw):
+    """one protocol event per OUTERMOST wrapper / PEP method call (nested calls are the callee's business)"""
+    if _DEPTH[0] == 0:
+        d = dict(ev=ev, heur="", mode="", srcs=[], fin=0, ret="", n=0)
+        d.update(kw)
+        PROTO.append(d)
+
+
+class _nested(object):
+    def __enter__(self):
+        _DEPTH[0] += 1
+
+    def __exit__(self, *a):
+        _DEPTH[0] -= 1
+
+
+def _memberships(o, lmi):
+    """every declared source the sent object belongs to (identity), as tokens of spec/Solve.tla's plan"""
+    from PEPit.block_partition import BlockPartition
+    pep = CURRENT_PEP[0]
+    out = []
+    if pep is None:
+        return out
+    suf = "lmi" if lmi else ""
+    if any(o is c for c in (pep.list_of_psd if lmi else pep.list_of_constraints)):
+        out.append("pep" + suf)
+    fs = all_functions()
+    for i, f in enumerate([f for f in fs if f.get_is_leaf()]):
+        if any(o is c for c in (f.list_of_class_psd if lmi else f.list_of_class_constraints)):
+            out.append("class%s:%d" % (suf, i + 1))
+    for j, f in enumerate([f for f in fs if len(f.list_of_constraints) > 0 or len(f.list_of_psd) > 0]):
+        if any(o is c for c in (f.list_of_psd if lmi else f.list_of_constraints)):
+            out.append("fun%s:%d" % (suf, j + 1))
+    if not lmi:
+        for q, part in enumerate(BlockPartition.list_of_partitions):
+            if any(o is c for c in part.list_of_constraints):
+                out.append("part:%d" % (q + 1))
+    return out or ["metric"]
+
+
+def _proto_head():
+    """the declared model at the moment the main variables are set (class and partition constraints are generated)"""
+    from PEPit.block_partition import BlockPartition
+    pep = CURRENT_PEP[0]
+    fs = all_functions()
+    return dict(metrics=len(pep.list_of_performance_metrics), pepcons=len(pep.list_of_constraints), peplmis=len(pep.list_of_psd),
+                leafs=[[len(f.list_of_class_constraints), len(f.list_of_class_psd)] for f in fs if f.get_is_leaf()],
+                fwc=[[len(f.list_of_constraints), len(f.list_of_psd)] for f in fs
+                     if len(f.list_of_constraints) > 0 or len(f.list_of_psd) > 0],
+                parts=[len(q.list_of_constraints) for q in BlockPartition.list_of_partitions])
 
 
 def install_recording_wrappers():
@@ -41,16 +97,49 @@ def install_recording_wrappers():
 
     def mk(base, name):
         class Rec(base):
+            def set_main_variables(self, *a, **k):
+                if _DEPTH[0] == 0 and CURRENT_PEP[0] is not None:
+                    PROTO_HEAD[0] = _proto_head()
+                _ev("set_main")
+                with _nested():
+                    return super().set_main_variables(*a, **k)
+
+            def send_constraint_to_solver(self, constraint, *a, **k):
+                if _DEPTH[0] == 0:
+                    _ev("send", srcs=_memberships(constraint, False))
+                with _nested():
+                    return super().send_constraint_to_solver(constraint, *a, **k)
+
+            def send_lmi_constraint_to_solver(self, psd_counter, psd_matrix, *a, **k):
+                if _DEPTH[0] == 0:
+                    _ev("send", srcs=_memberships(psd_matrix, True))
+                with _nested():
+                    return super().send_lmi_constraint_to_solver(psd_counter, psd_matrix, *a, **k)
+
+            def generate_problem(self, objective, *a, **k):
+                _ev("generate")
+                with _nested():
+                    return super().generate_problem(objective, *a, **k)
+
+            def get_primal_variables(self, *a, **k):
+                _ev("get_primal")
+                with _nested():
+                    return super().get_primal_variables(*a, **k)
+
             def solve(self, **kw):
-                out = super().solve(**kw)
-                G, F = self.get_primal_variables()
+                with _nested():
+                    out = super().solve(**kw)
+                    G, F = self.get_primal_variables()
+                _ev("solve", fin=0 if out[2] is None else 1)
                 LOG.append(dict(ev="solve", wrapper=name, status=str(out[0]), value=out[2],
                                 G=None if G is None else np.array(G, dtype=float).copy(),
                                 F=None if F is None else np.array(F, dtype=float).copy()))
                 return out
 
             def assign_dual_values(self):
-                out = super().assign_dual_values()
+                _ev("assign_duals")
+                with _nested():
+                    out = super().assign_dual_values()
                 LOG.append(dict(ev="assign_duals", wrapper=name,
                                 duals=[None if getattr(c, "_dual_variable_value", None) is None else
                                        np.array(c._dual_variable_value, dtype=float).copy()
@@ -60,16 +149,34 @@ def install_recording_wrappers():
 
             def prepare_heuristic(self, wc_value, tol):
                 LOG.append(dict(ev="prepare_heuristic", wrapper=name, wc=float(wc_value), tol=float(tol)))
-                return super().prepare_heuristic(wc_value, tol)
+                _ev("prepare_heuristic")
+                with _nested():
+                    return super().prepare_heuristic(wc_value, tol)
 
             def heuristic(self, weight):
                 LOG.append(dict(ev="heuristic", wrapper=name, W=np.array(weight, dtype=float).copy()))
-                return super().heuristic(weight)
+                _ev("heuristic")
+                with _nested():
+                    return super().heuristic(weight)
         Rec.__name__ = "Rec" + base.__name__
         return Rec
     W.WRAPPERS["cvxpy"] = mk(base_c, "cvxpy")
     W.WRAPPERS["mosek"] = mk(base_m, "mosek")
     W._verif_installed = True
+    # the two PEP-level steps that follow the wrapper's work
+    from PEPit.pep import PEP
+
+    def wrap(name, ev):
+        orig = getattr(PEP, name)
+
+        def f(self, *a, **k):
+            _ev(ev)
+            with _nested():
+                return orig(self, *a, **k)
+        f.__name__ = name
+        setattr(PEP, name, f)
+    wrap("_eval_points_and_function_values", "eval")
+    wrap("check_feasibility", "check")
 
 
 # ------------------------------------------------------------------------------------------------ model programs
